@@ -169,6 +169,15 @@ func c15Bindings(quick bool) []namedBinding {
 // ---------------------------------------------------------------- targets
 
 type Emb struct{ X int }
+type embUnexp struct{ X int }
+type WithUnexpEmbPtr struct { // a promoted field behind a pointer to an unexported type
+	*embUnexp
+	Y int
+}
+type WithUnexpEmb struct {
+	embUnexp
+	Y int
+}
 type EmbIn struct{ In struct{ X int } }
 type WithEmb struct {
 	Emb
@@ -247,6 +256,11 @@ func c15Targets() []namedTarget {
 	add("*T", func() any { return &T{} })
 	add("*Other", func() any { return &Other{} })
 	add("*EmbIn", func() any { return &EmbIn{} })
+	add("*WithUnexpEmbPtr", func() any { return &WithUnexpEmbPtr{} })
+	add("*WithUnexpEmbPtrSet", func() any { return &WithUnexpEmbPtr{embUnexp: &embUnexp{}} })
+	add("*WithUnexpEmb", func() any { return &WithUnexpEmb{} })
+	add("*[]WithUnexpEmbPtr", func() any { return &[]WithUnexpEmbPtr{} })
+	add("*struct{In WithUnexpEmbPtr}", func() any { return &struct{ In WithUnexpEmbPtr }{} })
 	// generated: one or two fields over every Go kind, field names chosen to meet the keys
 	kinds := []struct {
 		name string
